@@ -367,7 +367,7 @@ fn main() {
     let prop = Property {
         id: "C15",
         level: "exploration",
-        rule: "reference set model (Live) checked after every operation: (sequences) ALL operation sequences over {allocate, drop oldest handle, drop newest handle, add object with handle, add object implicitly, publish+drain until the objects are gone} up to depth d (6 quick, 8 thorough) for each TOI width 16..112 and initial values {1, 0, max-2, max-1, max, 2^w, u128::MAX, random default}; wire and FDT TOIs compared with the allocated values through the independent decoder; (rejected_adds) all sequences of depth 5 over {allocate, add refused by add_object, implicit add, drop} from the last values of every width; (inner_boundaries) allocation histories started 0-3 values before every inner 16-bit boundary 2^k < 2^w of the width, for five TSI values covering the TSI field classes, every allocated value attached, transmitted and compared on the wire and in the FDT; (wrap) 70 000 allocations across the 16-bit wrap with a sliding window of live handles and with all but a few values live, also while an object that was removed during its first transfer is still sending with its TOI; (threads) 2-8 real threads allocating through Arc<Mutex<Sender>> and dropping handles (moved between threads) without the lock, merged log ordered by a global sequence counter with call/return events; Send/Sync claims asserted at compile time; a case is one batch of sequences, non-trivial when allocations were observed; distinct = (width, initial, batch)",
+        rule: "reference set model (Live) checked after every operation: (sequences) ALL operation sequences over {allocate, drop oldest handle, drop newest handle, add object with handle, add object implicitly, publish+drain until the objects are gone} up to depth d (6 quick, 8 thorough) for each TOI width 16..112 and initial values {1, 0, max-2, max-1, max, 2^w, u128::MAX, random default}; wire and FDT TOIs compared with the allocated values through the independent decoder; (rejected_adds) all sequences of depth 5 over {allocate, add refused by add_object, implicit add, drop} from the last values of every width; (inner_boundaries) allocation histories started 0-3 values before every inner 16-bit boundary 2^k < 2^w of the width, for five TSI values covering the TSI field classes, every allocated value attached, transmitted and compared on the wire and in the FDT; (wrap) 70 000 allocations across the 16-bit wrap with a sliding window of live handles and with all but a few values live, also while an object that was removed during its first transfer is still sending with its TOI; (threads) 2-8 real threads allocating through Arc<Mutex<Sender>> and dropping handles (moved between threads) without the lock, merged log ordered by a global sequence counter with call/return events; Send/Sync claims asserted at compile time; a case is one batch of sequences, non-trivial when allocations were observed; distinct = (width, initial, batch); reassigned_handles: a reserved TOI assigned to an object and replaced by another before add_object - the object carries the last one, the first is free again",
         assumptions: vec![
             "a handle drop is effective somewhere inside its call/return interval: reuse is only flagged when an allocation lies entirely inside the definitely-live interval of the same value".into(),
             "TOI 0 handles created internally for FDTs are not modelled".into(),
